@@ -362,6 +362,7 @@ class Run:
         self.pid, self.tier, self.seed = pid, tier, seed
         self.t0 = time.time()
         self.violations = []        # [(replay path, summary)]
+        self.deferred = []          # correspondence differences: reported at the end, see finish()
         self.known_seen = {}        # finding id -> count
         self.findings = load_findings(pid)
         self.cov = {"evaluations": 0, "distinct_nontrivial": 0, "samples": [], "streams": {}}
@@ -383,9 +384,16 @@ class Run:
             self.cov["samples"].append(x)
 
     def violation(self, kind, data, finding_id=None, no_input=False):
-        """Report a failing input (or a broken obligation).  Suppressed only by a `known` entry with that id."""
+        """Report a failing input (or a broken obligation).  Suppressed only by a `known` entry with that id.
+        A difference between model and implementation (kind starting with `correspondence-`) is not by itself an
+        input on which the PROPERTY fails: it is kept until the end and printed with `no-failing-input-found`
+        unless the searches of this run also produced a concrete property violation."""
         if finding_id and self.known(finding_id):
             self.known_seen[finding_id] = self.known_seen.get(finding_id, 0) + 1
+            return False
+        if kind.startswith("correspondence-") and not no_input:
+            if len(self.deferred) < 50:
+                self.deferred.append((kind, data))
             return False
         d = os.path.join(VERIF, "replays", self.pid)
         os.makedirs(d, exist_ok=True)
@@ -403,6 +411,9 @@ class Run:
         return True
 
     def finish(self, obligations, discharged, rule, extra=None, assumptions=None):
+        concrete = bool(self.violations)
+        for kind, data in self.deferred[:5]:
+            self.violation(kind, data, no_input=not concrete)
         for f in self.findings:
             if f["status"] == "known":
                 n = self.known_seen.get(f["id"], 0)
@@ -439,6 +450,6 @@ def broken_obligations(run, b, found_input):
     the broken obligation itself (VIOLATION ... no-failing-input-found)."""
     if b.ok:
         return
-    if found_input:
+    if found_input or run.violations:
         return
     run.violation("broken-obligation", {"problems": b.describe(), "make_log_tail": b.make_log[-1500:]}, no_input=True)
